@@ -1153,6 +1153,17 @@ class LibMixin:
             if m is not None:
                 f = VFunc(m[2], load.get_module(m[0]), None, f"{m[1]}.__contains__", (m[0], m[1]))
                 return [(s, r if isinstance(r, Raised) else self.truth(s, r)) for s, r in self.call_function(st, f, [item], {}, self_val=ref)]
+            gi = load.find_method(h.cls[0], h.cls[1], "__getitem__") if h.cls[0].startswith("liquid") else None
+            if gi is not None:
+                # collections.abc.Mapping.__contains__ (mixin): `try: self[key]` / `except KeyError: False`
+                f = VFunc(gi[2], load.get_module(gi[0]), None, f"{gi[1]}.__getitem__", (gi[0], gi[1]))
+                out = []
+                for s, r in self.call_function(st, f, [item], {}, self_val=ref):
+                    if isinstance(r, Raised):
+                        out.append((s, z3.BoolVal(False)) if r.exc.cls == "KeyError" else (s, r))
+                    else:
+                        out.append((s, z3.BoolVal(True)))
+                return out
         raise Unsupported(f"`in` on {type(h).__name__}")
 
 
